@@ -24,11 +24,42 @@ pub struct Case {
     pub cpus: Vec<u32>,
     /// seed of what the run's entropy seam (`getrandom`) hands to the library
     pub entropy: u64,
+    /// chained runs (process incarnations sharing a disk): this phase's process is killed at this step (0 = never)
+    pub kill_step: u64,
+    /// the phases that run before this one (each without prefix / next of its own) ...
+    pub prefix: Vec<Case>,
+    /// ... and the phase that runs after it
+    pub next: Option<Box<Case>>,
 }
 
 impl Case {
     pub fn total_calls(&self) -> usize {
-        self.threads.iter().map(|t| t.len()).sum()
+        self.threads.iter().map(|t| t.len()).sum::<usize>() + self.prefix.iter().map(|p| p.total_calls()).sum::<usize>() + self.next.as_ref().map_or(0, |n| n.total_calls())
+    }
+    /// all phases in running order, each on its own
+    pub fn phases(&self) -> Vec<Case> {
+        let mut out: Vec<Case> = self.prefix.iter().flat_map(|p| p.phases()).collect();
+        let mut me = self.clone();
+        let next = me.next.take();
+        me.prefix.clear();
+        out.push(me);
+        if let Some(n) = next {
+            out.extend(n.phases());
+        }
+        out
+    }
+    /// phases[i] as the focus, the others around it
+    pub fn from_phases(phases: &[Case], focus: usize) -> Case {
+        let mut c = phases[focus].clone();
+        c.prefix = phases[..focus].to_vec();
+        let mut next: Option<Box<Case>> = None;
+        for p in phases[focus + 1..].iter().rev() {
+            let mut q = p.clone();
+            q.next = next.take();
+            next = Some(Box::new(q));
+        }
+        c.next = next;
+        c
     }
     pub fn size(&self) -> (usize, usize, usize, usize, usize) {
         let intra = self.switches.iter().filter(|s| s.tick != 0).count();
@@ -45,6 +76,9 @@ impl Case {
             "clock_jumps": self.jumps.iter().map(|t| t.iter().map(|(k, a, b)| json!([k, a, b])).collect::<Vec<_>>()).collect::<Vec<_>>(),
             "cpu_limits": self.cpus,
             "entropy_seed": self.entropy.to_string(),
+            "kill_step": self.kill_step.to_string(),
+            "phases_before": self.prefix.iter().map(|p| p.to_json()).collect::<Vec<_>>(),
+            "next_phase": self.next.as_ref().map(|n| n.to_json()).unwrap_or(Value::Null),
             "stack_depths_kb": self.depths.iter().map(|t| t.iter().map(|(k, a)| json!([k, a])).collect::<Vec<_>>()).collect::<Vec<_>>(),
         })
     }
@@ -99,7 +133,10 @@ impl Case {
         let mut cpus: Vec<u32> = v.get("cpu_limits").and_then(|c| c.as_array()).map(|a| a.iter().map(|x| x.as_u64().unwrap_or(0) as u32).collect()).unwrap_or_default();
         cpus.resize(threads.len(), 0);
         let entropy = v.get("entropy_seed").and_then(|x| x.as_str()).and_then(|x| x.parse::<u64>().ok()).unwrap_or(0);
-        Some(Case { threads, churn, start, switches, jumps, depths, cpus, entropy })
+        let kill_step = v.get("kill_step").and_then(|x| x.as_str()).and_then(|x| x.parse::<u64>().ok()).unwrap_or(0);
+        let prefix: Vec<Case> = v.get("phases_before").and_then(|x| x.as_array()).map(|a| a.iter().filter_map(Case::from_json).collect()).unwrap_or_default();
+        let next = v.get("next_phase").and_then(Case::from_json).map(Box::new);
+        Some(Case { threads, churn, start, switches, jumps, depths, cpus, entropy, kill_step, prefix, next })
     }
     pub fn from_spec(pool: &Pool, spec: &RunSpec, start: u32, switches: Vec<Sw>) -> Case {
         Case {
@@ -115,6 +152,9 @@ impl Case {
             depths: spec.stack_depths.clone(),
             cpus: spec.cpu_limits.clone(),
             entropy: spec.seed,
+            kill_step: spec.kill_step,
+            prefix: Vec::new(),
+            next: None,
         }
     }
 }
@@ -158,11 +198,26 @@ impl OracleCache {
 
 /// Turn a case into a private pool + spec. None if some call has no isolated outcome (never returns in isolation).
 pub fn materialise(case: &Case, oc: &mut OracleCache) -> Option<(Pool, RunSpec)> {
-    let all: Vec<Call> = case.threads.iter().flat_map(|t| t.iter().cloned()).collect();
+    let phases = case.phases();
+    let all: Vec<Call> = phases.iter().flat_map(|p| p.threads.iter().flat_map(|t| t.iter().cloned())).collect();
     oc.ensure(&all);
     let mut pool = Pool::default();
     let mut idx: BTreeMap<Call, u32> = BTreeMap::new();
     let mut expr_ids: BTreeMap<(Ev, String), u32> = BTreeMap::new();
+    let mut specs: Vec<RunSpec> = Vec::new();
+    for ph in phases.iter() {
+        specs.push(materialise_phase(ph, oc, &mut pool, &mut idx, &mut expr_ids)?);
+    }
+    pool.assign_text_ids();
+    let mut chain: Option<RunSpec> = None;
+    while let Some(mut sp) = specs.pop() {
+        sp.next = chain.take().map(Box::new);
+        chain = Some(sp);
+    }
+    Some((pool, chain?))
+}
+
+fn materialise_phase(case: &Case, oc: &mut OracleCache, pool: &mut Pool, idx: &mut BTreeMap<Call, u32>, expr_ids: &mut BTreeMap<(Ev, String), u32>) -> Option<RunSpec> {
     let mut clients: Vec<Vec<u32>> = Vec::new();
     for t in &case.threads {
         let mut cl = Vec::new();
@@ -197,7 +252,6 @@ pub fn materialise(case: &Case, oc: &mut OracleCache) -> Option<(Pool, RunSpec)>
         }
         clients.push(cl);
     }
-    pool.assign_text_ids();
     let mut churn = case.churn.clone();
     churn.resize(clients.len(), Vec::new());
     let spec = RunSpec {
@@ -225,8 +279,10 @@ pub fn materialise(case: &Case, oc: &mut OracleCache) -> Option<(Pool, RunSpec)>
             c.resize(case.threads.len(), 0);
             c
         },
+        kill_step: case.kill_step,
+        next: None,
     };
-    Some((pool, spec))
+    Some(spec)
 }
 
 #[derive(Clone, Debug)]
@@ -250,6 +306,13 @@ impl RunResult {
         let start = self.rec.get("start")?.as_u64()? as u32;
         let sw = sim::switches_from_json(self.rec.get("switches")?)?;
         Some((start, sw))
+    }
+    /// the recorded schedule, if it is the schedule of phase `focus` (single-phase runs have no phase number)
+    pub fn recorded_for(&self, focus: usize) -> Option<(u32, Vec<Sw>)> {
+        match self.rec.get("phase").and_then(|x| x.as_u64()) {
+            Some(p) if p as usize != focus => None,
+            _ => self.recorded(),
+        }
     }
     pub fn hash(&self) -> String {
         self.rec.get("h").and_then(|h| h.as_str()).unwrap_or("").to_string()
